@@ -59,6 +59,24 @@ STAR = ['from os.path import *\n{P}', '{P}\ndef star_function():\n    pass\nfrom
         '{P}\nfrom os import path, sep\nfrom . import *\n']
 
 
+# the trigger name is also bound or declared somewhere, yet the builtin is what runs (or may run)
+REBOUND = {
+    'global-declared-never-assigned': 'def trigger_function(code_text):\n    global {N}\n    long_local_name = 5\n    return {N}, long_local_name, long_local_name\n{P}',
+    'conditionally-bound': 'import sys\nif sys.version_info < (3,):\n    {N} = None\ndef trigger_function(code_text):\n    long_local_name = 5\n    return {N}, long_local_name, long_local_name\n{P}',
+    'bound-to-itself': '{N} = {N}\ndef trigger_function(code_text):\n    long_local_name = 5\n    return {N}, long_local_name, long_local_name\n{P}',
+    'bound-after-use': 'def trigger_function(code_text):\n    long_local_name = 5\n    return {N}, long_local_name, long_local_name\ntrigger_function(1)\n{N} = None\n{P}',
+    'deleted-again': '{N} = None\ndel {N}\ndef trigger_function(code_text):\n    long_local_name = 5\n    return {N}, long_local_name, long_local_name\n{P}',
+}
+
+
+def rebound_programs():
+    out = []
+    for kind, tmpl in sorted(REBOUND.items()):
+        for name in ('eval', 'exec', 'locals', 'globals', 'vars'):
+            out.append(('rebound:%s:%s' % (kind, name), tmpl.format(N=name, P='other_value = 1\n'), 'other_value = 1\n', kind))
+    return out
+
+
 def tainted_programs(ctx, n):
     base = scopegen.exhaustive(False)
     ctx.rng.shuffle(base)
@@ -109,6 +127,8 @@ def run_programs(ctx, progs, osets, found_by):
                 ctx.mark_nontrivial(ident + oname)
             if why and not why.startswith('minify raised'):
                 shapes = ['hoist-under-taint'] if extra.get('hoist_literals') and not (extra.get('rename_locals') or extra.get('rename_globals')) else []
+                if ident.startswith('rebound:'):
+                    shapes.append('trigger-name-' + ident.split(':')[1])
                 ctx.add_violation({'input': {'source': prog, 'options': extra}, 'what': why, 'found_by': found_by, 'oracle': 'identical',
                                    'shapes': shapes})
     if progs:
@@ -131,10 +151,12 @@ def run(ctx):
     progs = tainted_programs(ctx, ctx.scale(350, 5000))
     osets = rc.RENAME_OPTION_SETS if ctx.tier == 'thorough' else [rc.RENAME_OPTION_SETS[i] for i in (3, 4, 1)]
     run_programs(ctx, progs, osets, 'generated')
+    run_programs(ctx, [(i, p, b) for i, p, b, _k in rebound_programs()], osets, 'rebound-trigger-names')
     control_group(ctx)
     for k in ctx.known:
         if k.get('replay_source'):
-            run_programs(ctx, [(k['id'], k['replay_source'], k['replay_source'])], rc.RENAME_OPTION_SETS, 'known')
+            run_programs(ctx, [('rebound:%s:known' % k['match']['shape'][len('trigger-name-'):] if k.get('match', {}).get('shape', '').startswith('trigger-name-') else k['id'],
+                                k['replay_source'], k['replay_source'])], rc.RENAME_OPTION_SETS, 'known')
 
 
 def search(ctx):
